@@ -55,6 +55,8 @@ type FuncContract struct {
 	Ghost    []GhostAssign
 	GhostInit []GhostAssign
 	LoopVar  map[int][]*Clause // increases/decreases
+	LoopAssume map[int][]*Clause // hypotheses assumed at the loop head (composition hypotheses)
+	LoopStep map[int][]*Clause // relations between loop head and back edge of one iteration
 	Asserts  []*Clause
 	NoInv    map[string]bool // invariants this function opts out of
 	NoPanic  bool            // default true; `maypanic` sets false
@@ -141,11 +143,12 @@ type Contracts struct {
 	Files     []string
 	Assumptions []string // textual scan: extern, axiom, trusted
 	MinObl    map[string]int
+	Macros    map[string]*PureFunc // state-reading abbreviations, expanded at use sites
 }
 
 func NewContracts() *Contracts {
 	return &Contracts{Funcs: map[string]*FuncContract{}, Slots: map[string]*FuncContract{}, Pures: map[string]*PureFunc{},
-		Lemmas: map[string]*Lemma{}, Ghosts: map[string]*GhostVar{}, MinObl: map[string]int{}}
+		Lemmas: map[string]*Lemma{}, Ghosts: map[string]*GhostVar{}, MinObl: map[string]int{}, Macros: map[string]*PureFunc{}}
 }
 
 type cline struct {
@@ -201,7 +204,7 @@ func stripComment(s string) string {
 	return s
 }
 
-var kwRe = regexp.MustCompile(`^\s*(group|func|extern|slot|requires|ensures|modifies|invariant|history|loop|ghostinit|ghost|pure|lemma|axiom|const|global|assert|mode|maypanic|noinv|use|callslot|trusted|bounded|pkg|end|implements)\b`)
+var kwRe = regexp.MustCompile(`^\s*(group|func|extern|slot|requires|ensures|modifies|invariant|history|loop|ghostinit|ghost|pure|lemma|axiom|const|global|assert|mode|maypanic|noinv|use|callslot|trusted|bounded|pkg|end|implements|macro)\b`)
 
 var labelRe = regexp.MustCompile(`^\s*([A-Za-z_][A-Za-z0-9_]*)\s*:\s*(.*)$`)
 var propsRe = regexp.MustCompile(`^\s*\[([A-Z0-9, ]+)\]\s*(.*)$`)
@@ -472,6 +475,29 @@ func (c *Contracts) LoadFile(path string) error {
 					}
 					cur.LoopMod[n] = append(cur.LoopMod[n], ModItem{it, e})
 				}
+			case "assume", "step":
+				props, r := splitProps(fs[2])
+				label, r := splitLabel(r)
+				e, err := ParseCExpr(r)
+				if err != nil {
+					return fail(l, "%v", err)
+				}
+				if props == nil {
+					props = cur.mergeProps
+				}
+				cl := &Clause{Kind: fs[1], Label: label, Props: props, Expr: e, Src: r, Loop: n, Where: l.where}
+				if fs[1] == "assume" {
+					if cur.LoopAssume == nil {
+						cur.LoopAssume = map[int][]*Clause{}
+					}
+					cur.LoopAssume[n] = append(cur.LoopAssume[n], cl)
+					c.Assumptions = append(c.Assumptions, fmt.Sprintf("loop-head hypothesis (assumed, not proved) in %s loop %d: %s @ %s", cur.Name, n, r, l.where))
+				} else {
+					if cur.LoopStep == nil {
+						cur.LoopStep = map[int][]*Clause{}
+					}
+					cur.LoopStep[n] = append(cur.LoopStep[n], cl)
+				}
 			case "increases", "decreases":
 				e, err := ParseCExpr(fs[2])
 				if err != nil {
@@ -534,6 +560,24 @@ func (c *Contracts) LoadFile(path string) error {
 				}
 				cur.Ghost = append(cur.Ghost, GhostAssign{v, e, as})
 			}
+		case "macro":
+			// macro name(params) = body   (body may read the heap; expanded where used)
+			r := rest
+			i := indexTop(r, '=')
+			if i < 0 {
+				return fail(l, "macro needs a body")
+			}
+			body := strings.TrimSpace(r[i+1:])
+			name, params, _, err := parseSig(strings.TrimSpace(r[:i]))
+			if err != nil {
+				return fail(l, "%v", err)
+			}
+			e, err := ParseCExpr(body)
+			if err != nil {
+				return fail(l, "%v", err)
+			}
+			c.Macros[name] = &PureFunc{Name: name, Params: params, Body: e, Src: rest, Where: l.where}
+			cur, curLemma = nil, nil
 		case "pure":
 			// pure func name(params) result = body     | pure func name(params) result   (uninterpreted)
 			r := strings.TrimSpace(strings.TrimPrefix(rest, "func"))
